@@ -16,8 +16,8 @@ open Drv Lean
 
 def genFor (prop tier : String) (seed : Nat) : Except String (Array Case) :=
   match prop with
-  | "C01" => pure (genC01Cases tier seed)
-  | "C02" => pure (genC02Cases tier seed)
+  | "C01" => pure (genC01Cases tier seed ++ pairwiseSimpleCases "c01")
+  | "C02" => pure (genC02Cases tier seed ++ pairwiseNestedCases "c02")
   | "C03" =>
     let base := genC03Cases tier seed
     -- every fifth statement is also exported as a table (model on the implementation's parse,
@@ -35,7 +35,7 @@ def genFor (prop tier : String) (seed : Nat) : Except String (Array Case) :=
   | "C09" => pure (genVisCases tier seed "c09")
   | "C16" => pure (genC16AllCases tier seed)
   | "C17" => pure (genC17Cases tier seed)
-  | "C18" => pure (genC18Cases tier seed)
+  | "C18" => pure (genC18Cases tier seed ++ pairwiseNestedCases "c18")
   | "C20" => pure (genC20Cases tier seed)
   | "C10" => pure (genC10Cases tier seed)
   | "C11" => pure (genC11Cases tier seed ++ genValidateCases tier seed)
